@@ -371,7 +371,8 @@ func oracle(c Case, o *h.Obs) *h.Fail {
 	}
 	switch wantCode {
 	case 2:
-		if !strings.HasPrefix(got, "ReadFile error:") || strings.Count(got, "\n") != 1 {
+		// one diagnostic line and nothing else (its wording is not fixed by the statement)
+		if strings.TrimSpace(got) == "" || strings.Count(got, "\n") != 1 || !strings.HasSuffix(got, "\n") || strings.Contains(got, "must not run") {
 			return h.Failf("C18|readfile-diagnostic", "%s", detail)
 		}
 	case 0:
@@ -379,13 +380,20 @@ func oracle(c Case, o *h.Obs) *h.Fail {
 			return h.Failf("C18|stdout|success|"+c.Mode, "%s", detail)
 		}
 	case 4:
-		wantOut := want.out + "Execute error: " + want.err.Error() + "\n"
-		if canon(got) != canon(wantOut) {
-			clause := "output-before-error"
-			if strings.HasPrefix(canon(got), canon(want.out)) {
-				clause = "diagnostic-line"
-			}
-			return h.Failf("C18|stdout|"+clause+"|"+c.Mode, "%s", detail)
+		// everything the script printed, then ONE diagnostic line; its wording is not fixed by the
+		// statement (today: "Execute error: " + the library's error text). An error text that spans
+		// several lines makes the diagnostic span as many.
+		g, w := canon(got), canon(want.out)
+		if !strings.HasPrefix(g, w) {
+			return h.Failf("C18|stdout|output-before-error|"+c.Mode, "%s", detail)
+		}
+		rest := g[len(w):]
+		nl := strings.Count(rest, "\n")
+		if rest == "" || strings.TrimSpace(rest) == "" || !strings.HasSuffix(rest, "\n") || (nl != 1 && nl != 1+strings.Count(want.err.Error(), "\n")) {
+			return h.Failf("C18|stdout|diagnostic-line|"+c.Mode, "after the script's own output the command must print exactly one diagnostic line; it printed %q\n%s", rest, detail)
+		}
+		if strings.Contains(rest, "Execute error: ") {
+			o.Class("diagnostic_line_in_todays_wording")
 		}
 	}
 	return nil
